@@ -39,9 +39,15 @@ def body(ctx):
     ctx.extra['paths'] = n
     # crossing closes: the client's own Channel.Close is in flight when the server closes the channel; the server's CloseOk for it then
     # arrives for a slot that is already gone and must be ignored - the frame-level obligations of C09, decided here as well
-    import c09
+    import c09, c08, c01
     c09.body(ctx)
     token_range(ctx, prog)
+    c08.close_reports_the_cause(ctx, prog)     # Connection::close still reports the server's close when its own request failed because of it
+    wv = []
+    c01.write_loop(ctx, prog, wv)              # a close plus other output in one batch: a partial write keeps the bytes and the seal
+    if wv:
+        ctx.replay_timeout = 180
+        ctx.report('outbound-stream', f"write loop: {str(wv[0])[:300]}", {'solver_counterexamples': [str(v)[:300] for v in wv[:4]]}, c01.NATIVE, inject_into='src/io_loop/mod.rs', profiles=('dev',), hang_is_violation=True, panic_is_violation=True)
     roles = {}
     for v in viol:
         roles.setdefault(v[0], v)
